@@ -101,7 +101,7 @@ CLAIMED = {
    design="§4 C08", technique="Coq proof (list induction) over hand model; extracted-model-vs-Go differential correspondence",
    note=TB + 'Axioms: none. Model reflects fix F1.'),
  "C06": dict(
-   text='7 theorems in coq/Properties/C06.v: parse_text is total on every byte string (records with one block each XOR >= 1 error; never Crash/Err), blockwise characterisation, evaluation guards exact, and C06_evaluate_total_partial (total, report, today, with-totals, tag aggregation never crash under the int64 guard; --now, filters, json not covered) with the K1 witness. Tied to the code by exhaustive token strings, mutated documents, random bytes, very long inputs and far-right errors, and an oracle-only run of every read-only command (serial and parallel) on whatever the parser returned.',
+   text='11 theorems in coq/Properties/C06.v: parse_text is total on every byte string (records with one block each XOR >= 1 error; never Crash/Err), blockwise characterisation, evaluation guards exact, C06_evaluate_total_partial (total, report, today, with-totals, tag aggregation never crash under the int64 guard), C06_json_total / C06_json_inputs_total (`klog json` prints a document for every accepted text under the guard and for every rejected text), C06_now_no_crash (with --now: closing open ranges is Ok or the ordinary error, never a panic, and total/report/today then return, under the guard plus 4319 minutes of head room per open range), with the K1 witness; filters and --period arguments are C13/C15. Tied to the code by exhaustive token strings, mutated documents, random bytes, very long inputs and far-right errors, and an oracle-only run of every read-only command (serial and parallel) on whatever the parser returned.',
    design="§4 C06", technique="Coq proof (totality by induction, Crash-freedom) over hand model; differential correspondence + end-to-end command runs",
    note=TB + 'Axioms: none. Known finding K1. Hanging/memory exhaustion of the implementation: harness time-outs only. Model reflects fixes F1, F2, F3.'),
  "C10": dict(
